@@ -107,9 +107,9 @@ func verifC09_close() {
 	took := vGhostElapsed() - start
 	vReach("C09.close.returned")
 	if useCloseNow {
-		vAssert(took < time.Second, "C09.close.closenow-prompt")
+		vAssert(took < time.Second+vSlack(), "C09.close.closenow-prompt")
 	} else {
-		vAssert(took <= 10*time.Second+time.Second, "C09.close.within-documented-bound")
+		vAssert(took <= 10*time.Second+time.Second+vSlack(), "C09.close.within-documented-bound")
 	}
 	// every call that was blocked on the connection has returned (with an error)
 	for i := 0; i < nBlocked; i++ {
@@ -176,7 +176,7 @@ func verifC09_closeread() {
 	}
 	took := vGhostElapsed() - start
 	vReach("C09.closeread.done")
-	vAssert(took < time.Second, "C09.closeread.prompt")
+	vAssert(took < time.Second+vSlack(), "C09.closeread.prompt")
 	c.CloseNow()
 	vAssert(vGhostGoroutines() == 0, "C20.exit.closeread-goroutine-gone")
 	vObserve("closeread", how)
